@@ -164,6 +164,21 @@ def gen_C02(chk):
             k = gen.quant_depth(f)
             ctx = [(l, ctx_spec(rng)) for l in labels]
             chk.add_eval(net, k, rng.choice(["es", "es", "e"]), [f], ctx=ctx, tag="extrnd", netname=nm)
+        # the same inner (label, variable) below differently restricted outer variables, in one
+        # formula and across the formulae of a batch (nothing computed in one scope may leak into another)
+        for j in range(cnt(chk, 6, 20)):
+            lb = rng.choice(labels)
+            nests = []
+            for la in rng.sample(labels, 2) + [None]:
+                body = gen.random_formula(rng, rng.randint(1, 3), props, scope=["x", "y"], max_vars=2)
+                if rng.random() < 0.5 or not gen.free_vars(body):
+                    body = ("H", "Jump", "x", None, ("U", rng.choice(["EF", "EX", "AX", "AG"]), gen.T("V", "y")))
+                nests.append(("H", rng.choice(gen.QUANTS), "x", la, ("H", rng.choice(gen.QUANTS), "y", lb, body)))
+            rng.shuffle(nests)
+            ctx = [(l, ctx_spec(rng)) for l in labels]
+            one = ("B", rng.choice(["And", "Or"]), nests[0], ("B", rng.choice(["And", "Or"]), nests[1], nests[2]))
+            chk.add_eval(net, 2, "es", [one], ctx=ctx, tag="nests-one", netname=nm)
+            chk.add_eval(net, 2, "es", nests, ctx=ctx, tag="nests-batch", netname=nm)
         # README equivalences for arbitrary bodies, evaluated through the API
         for j in range(cnt(chk, 6, 20)):
             body = gen.random_formula(rng, rng.randint(0, 4), props, scope=["x"], max_vars=2, wilds=("p",))
@@ -463,6 +478,24 @@ def gen_C10(chk):
                     c1 = chk.add_eval(net, kk, "es", [g1], ctx=[("d", dspec), ("w0", "f" + gen.hx(gen.render(s0)))],
                                       tag="dom-subst", netname=nm)
                     chk.cases[c1]["pair"] = b0
+            # the replaced sub-formula used twice: first below a restricted quantifier, then outside
+            # it under a negation (a set computed inside the restricted scope must not be reused outside)
+            if closed and j % 2 == 1:
+                s0 = rng.choice(closed)
+                pr = gen.T("P", rng.choice(props))
+                wrap = lambda z: ("U", rng.choice(["EF", "EX", "AF"]), ("B", rng.choice(["And", "Or"]), pr, z))
+                for q in gen.QUANTS:
+                    w1 = wrap(s0)
+                    inner = ("H", q, "w", "d", ("H", "Jump", "w", None, w1))
+                    outer = ("H", rng.choice(gen.QUANTS), "w", None, ("U", "Not", w1))
+                    g0 = ("B", rng.choice(["And", "Or"]), inner, outer)
+                    g1 = replace_subtree(g0, s0, gen.T("W", "w0"))
+                    dspec = ctx_spec(rng)
+                    kk = max(gen.quant_depth(g0), 1)
+                    b0 = chk.add_eval(net, kk, "es", [g0], ctx=[("d", dspec)], tag="dom2-base", netname=nm)
+                    c1 = chk.add_eval(net, kk, "es", [g1], ctx=[("d", dspec), ("w0", "f" + gen.hx(gen.render(s0)))],
+                                      tag="dom2-subst", netname=nm)
+                    chk.cases[c1]["pair"] = b0
             if not closed:
                 continue
             rng.shuffle(closed)
@@ -658,6 +691,10 @@ def gen_C15(chk):
         props = net_props(net)
         for j in range(cnt(chk, 10, 30)):
             f = gen.random_formula(rng, rng.randint(1, 7), props, max_vars=2)
+            if j % 3 == 2:
+                # the number of spare sets needed is the nesting depth, whatever the user calls the
+                # variables: sibling quantifiers with many distinct names
+                f = gen.alpha_rename(f, rng, ["u", "v", "w", "s", "t", "x", "yy", "z9"])
             d = gen.quant_depth(f)
             group = []
             for k in (d, d + 1, d + 3):
@@ -686,6 +723,20 @@ def gen_C18(chk):
             k = gen.quant_depth(f)
             a = chk.add_eval(net, k, "u", [f], tag="unsafe", netname=nm)
             b = chk.add_eval(net, k, "", [f], tag="standard", netname=nm)
+            chk.cases[a]["pair"] = b
+        # weak until is in the fragment although its classical definition goes through AU / EG:
+        # propositional operands (steady states satisfying phi & ~psi with transient predecessors)
+        for j in range(cnt(chk, 10, 30)):
+            p1 = gen.random_formula(rng, rng.randint(1, 3), props, max_vars=0, unops=["Not"], binops=["And", "Or"])
+            p2 = gen.random_formula(rng, rng.randint(1, 3), props, max_vars=0, unops=["Not"], binops=["And", "Or"])
+            f = ("B", "AW", p1, p2)
+            r = rng.random()
+            if r < 0.3:
+                f = ("U", rng.choice(["EF", "AG", "Not"]), f)
+            elif r < 0.5:
+                f = ("B", "AW", f, gen.T("P", rng.choice(props)))
+            a = chk.add_eval(net, 0, "u", [f], tag="unsafe-aw", netname=nm)
+            b = chk.add_eval(net, 0, "", [f], tag="standard", netname=nm)
             chk.cases[a]["pair"] = b
     # all formulae on steady-state-free networks
     for nm in gen.NO_STEADY:
@@ -802,6 +853,10 @@ def gen_bench_patterns(chk):
             ("3{y} in %d%: @{y}: (!{x}: AX {x})", "3{y} in %d%: @{y}: (!{x}: AX ({x} & {x}))"),
             ("!{y} in %d%: (!{x}: AG EF {x})", "!{y} in %d%: (!{x}: AG EF ({x} & {x}))"),
         ]
+        if "13var" not in nm:
+            # the generic evaluation of AG EF with a free state variable takes tens of minutes on the
+            # larger bundled models (that is why the shortcut exists): only the AX pairs there
+            pairs = [pq for pq in pairs if "AG EF" not in pq[0]]
         fs = []
         for x, y in pairs:
             fs += [x, y]
